@@ -482,6 +482,17 @@ def r6(ctx):
     ctx.ob("standard partition", consistent, "RawBoard::standard(): colour sets and piece sets are not a consistent partition", site=P.body(key).get("def_span"))
 
 
+
+@rule("C04.W", "type-level: compile-fail witnesses with compiling twins (K6; thorough tier)")
+def rw(ctx):
+    from analysis import witness
+    if ctx.config != "ws":
+        return
+    witness.check(ctx, {'c04_zobrist_field_private': 'code outside chess-movegen could overwrite Board.zobrist', 'c04_raw_field_private': 'code outside chess-movegen could replace the piece sets without touching the hash', 'c04_raw_shared_only': 'Board::raw() hands out a mutable reference to the piece sets'})
+
+
+rw.thorough_only = True
+
 # ------------------------------------------------------------------ controls
 def _dup_key(P):
     v = P.own("values", ZOB + "EN_PASSANT_ZOBRIST")
